@@ -96,12 +96,17 @@ Proof. exact mp_migrate_sets_version. Qed.
 Print Assumptions C08_migrate_sets_version.
 
 (* Client state leaf (chaincore/state.State), fixed binary layout: with its guard (a 32-byte
-   transaction hash, numbers in their Go ranges) Decode inverts Encode, also when bytes follow,
-   and Encode is injective. *)
+   transaction hash, numbers in their Go ranges) Decode inverts Encode, Encode is injective, and
+   (since fix 8b489e6) a value of any other size than the 56 bytes Encode writes is not a client state. *)
 Theorem C08_state_round_trip :
-  forall s extra, sb_wf s -> exists b, sb_encode s = SbBytes b /\ sb_decode (b ++ extra) = Some s.
+  forall s, sb_wf s -> exists b, sb_encode s = SbBytes b /\ sb_decode b = Some s.
 Proof. exact sb_decode_encode. Qed.
 Print Assumptions C08_state_round_trip.
+
+Theorem C08_state_decode_exact_size :
+  forall b, length b <> 56%nat -> sb_decode b = None.
+Proof. exact sb_decode_exact_size. Qed.
+Print Assumptions C08_state_decode_exact_size.
 
 Theorem C08_state_encoding_injective :
   forall s1 s2, sb_wf s1 -> sb_wf s2 -> sb_encode s1 = sb_encode s2 -> s1 = s2.
